@@ -37,7 +37,7 @@ def check_isolation(sc, exp, found, src_after=None, share=False, nested=False):
 
     try:
         per, values = al.run_scenario(sc["brs"], sc["N"], sc["bs"], sc["drv"], sc["rq"], share=share,
-                                      shape=sc.get("shape", "pair"), nested=nested)
+                                      shape=sc.get("shape", "pair"), nested=nested, cls=sc.get("cls", "dict"))
     except Exception as exc:      # noqa
         report("raised:" + exc_name(exc), {"exception": repr(exc)[:300]})
         return None
@@ -46,7 +46,8 @@ def check_isolation(sc, exp, found, src_after=None, share=False, nested=False):
     if src_after is not None:
         for j, v in enumerate(values):
             now = al.pure(v)
-            if now != al.pure(al.flow_value(j + 1, sc.get("shape", "pair"))) and now != al.norm_pure(src_after[j]):
+            if now != al.pure(al.flow_value(j + 1, sc.get("shape", "pair"), sc.get("cls", "dict"))) \
+                    and now != al.norm_pure(src_after[j]):
                 report("callers-value-changed", {"index": j, "now": now, "allowed": al.norm_pure(src_after[j])})
                 break
     outs = []
@@ -91,7 +92,7 @@ def _iso_worker(rec):
     found, cases = {}, []
     if not rec["brs"]:
         return found, cases
-    sc = {k: rec[k] for k in ("brs", "N", "bs", "drv", "rq", "shape")}
+    sc = {k: rec[k] for k in ("brs", "N", "bs", "drv", "rq", "shape", "cls")}
     check_isolation(sc, rec["exp"], found, rec["src"], share=False)
     cases.append((rl.case_hash(["isolation", sc]), rec["N"] > 0 and len(rec["brs"]) > 1))
     if len(rec["brs"]) > 1 and rec["N"] > 0:
@@ -121,10 +122,12 @@ def _alias_worker(rec):
 def replay_alias(rec, accs, found, cases, skipped, only=None):
     """One behaviour of Alias.tla on every real accumulator of its kind: after every action the contexts
     held by the producer and by the consumer must have the values of the spec."""
-    kind, h = rec["kind"], rec["h"]
+    kind, h, cls = rec["kind"], rec["h"], rec.get("cls", "dict")
     for acc in accs:
         if acc.kind != kind["t"] or acc.nres != kind["nres"] or not acc.snapshot:
             continue
+        if cls != "dict" and acc.typed:
+            continue          # the typed variants repeat an accumulator: once per class is enough
         if only is not None and acc.nres > 1 and acc.name not in only:
             continue
 
@@ -132,9 +135,9 @@ def replay_alias(rec, accs, found, cases, skipped, only=None):
             key = "%s:%s" % (acc.name, what)
             cur = found.get(key)
             if cur is None or upto < len(cur["history"]):
-                found[key] = dict(extra, accumulator=acc.name,
+                found[key] = dict(extra, accumulator=acc.name, context_class=cls,
                                   history=[{"op": o["op"], "arg": o["arg"]} for o in h[:upto]])
-        run = al.AliasRun(acc)
+        run = al.AliasRun(acc, cls)
         ok = True
         for idx, o in enumerate(h):
             try:
@@ -156,6 +159,12 @@ def replay_alias(rec, accs, found, cases, skipped, only=None):
                        idx + 1, {"exception": repr(exc)[:300]})
                 ok = False
                 break
+            changed = run.config_changed()
+            if changed:
+                report("element-configuration-changed:after-%s" % {"f": "fill", "c": "compute", "m": "mutating-a-result"}[o["op"]],
+                       idx + 1, changed)
+                ok = False
+                break
             srcs, ress = run.snapshots()
             want_src = [al.drop(al.py_ctx(c), acc.own) for c in o["srcs"]]
             want_res = [al.drop(al.py_ctx(c), acc.own) for c in o["ress"]]
@@ -168,13 +177,19 @@ def replay_alias(rec, accs, found, cases, skipped, only=None):
                 report("yielded-context-wrong:after-%s" % opname, idx + 1, {"expected": want_res, "observed": ress})
                 ok = False
                 break
-        cases.append((rl.case_hash([acc.name, [[o["op"], o["arg"]] for o in h]]),
+        cases.append((rl.case_hash([acc.name, cls, [[o["op"], o["arg"]] for o in h]]),
                       any(o["op"] == "c" for o in h) and any(o["op"] == "f" for o in h)))
+
+
+class ConfigChanged(Exception):
+    pass
 
 
 def record_alias(rnd, acc, nops):
     """Seeded random fill/compute history on a real accumulator, logged as object-identity facts."""
-    el = acc.make()
+    el, cfg = acc.build()
+    cfg0 = al.plain_ctx(cfg)
+    cls = rnd.choice(["dict", "dict", "Context", "OrderedDict", "defaultdict", "UserDict"])
     keep, number = [], {}
 
     def ren(ids):
@@ -184,7 +199,10 @@ def record_alias(rnd, acc, nops):
     for _ in range(nops):
         if rnd.random() < 0.55:
             nf += 1
-            v = (acc.data(nf), al.rand_ctx(rnd))
+            c = al.rand_ctx(rnd)
+            if acc.typed:
+                c["variable"] = copy.deepcopy(al.TYPED_VARIABLE)
+            v = (acc.data(nf), al.as_class(c, cls))
             keep.append(v)
             ids = al.ctx_ids(v[1], keep)
             el.fill(v)
@@ -198,6 +216,8 @@ def record_alias(rnd, acc, nops):
                     # downstream elements update what they get in place
                     c["touched"] = c.get("touched", 0) + 1
             events.append({"ev": "c", "outs": outs, "acc": acc.name})
+        if al.plain_ctx(cfg) != cfg0:
+            raise ConfigChanged({"initially": cfg0, "now": al.plain_ctx(cfg)})
     return events
 
 
@@ -232,9 +252,11 @@ def run(ctx):
     # copy per call; the others run in the thorough tier)
     guards_a = (("Isolation_nocopy.cfg", "Isolated"), ("Isolation_shallow.cfg", "Isolated"),
                 ("Isolation_varshallow.cfg", "Isolated"), ("Isolation_hashable.cfg", "Isolated"),
+                ("Isolation_clsshallow.cfg", "Isolated"),
                 ("Isolation_eqlast.cfg", "Isolated"))
-    guards_b = (("Alias_once.cfg", "Fresh"), ("Alias_nocopy.cfg", "Fresh"), ("Alias_nocopy2.cfg", "MutateIsLocal"))
-    for cfg, prop in (guards_a if ctx.thorough else guards_a[4:]):
+    guards_b = (("Alias_once.cfg", "Fresh"), ("Alias_nocopy.cfg", "Fresh"), ("Alias_nocopy2.cfg", "MutateIsLocal"),
+                ("Alias_clsshallow.cfg", "Fresh"), ("Alias_cfgwrite.cfg", "ConfigIntact"))
+    for cfg, prop in (guards_a if ctx.thorough else guards_a[5:]):
         res = ctx.mc("Isolation", cfg, expect_violation="report")
         if res.violated != prop:
             raise core.MachineryError("the isolation model is insensitive: %s did not refute %s" % (cfg, prop))
@@ -268,7 +290,7 @@ def run(ctx):
         sc = al.rand_scenario(rnd)
         try:
             per, _values = al.run_scenario(sc["brs"], sc["N"], sc["bs"], sc["drv"], sc["rq"],
-                                           share=rnd.random() < 0.5, shape=sc["shape"])
+                                           share=rnd.random() < 0.5, shape=sc["shape"], cls=sc["cls"])
         except Exception as exc:     # noqa
             key = "%s:raised:%s" % (DRIVER[sc["drv"]], exc_name(exc))
             if key not in found or _size(sc) < _size(found[key]["scenario"]):
@@ -326,6 +348,8 @@ def run(ctx):
         for _ in range(40 if ctx.thorough else 8):
             try:
                 evs.extend(record_alias(rnd, acc, rnd.randint(3, 14)))
+            except ConfigChanged as exc:
+                ctx.violation("%s:recording:element-configuration-changed" % acc.name, exc.args[0])
             except Exception as exc:    # noqa
                 ctx.violation("%s:recording:raised:%s" % (acc.name, exc_name(exc)), {"exception": repr(exc)[:300]})
         by_acc[acc.name] = evs
